@@ -25,12 +25,19 @@ CORPUS = common.VERIF / "corpus" / "surface"
 # generated (library, client) pairs
 
 LIB_DEFS = ["helper", "Klass", "CONST", "otherThing"]
-LIB = '''def helper():
+LIB = '''import sys
+
+
+def helper():
     return 1
 
 
 def otherThing(x=2):
     return x * 2
+
+
+def viaModule():
+    return sys.modules[__name__].otherThing(1)
 
 
 class Klass:
@@ -41,6 +48,12 @@ class Klass:
 
     def meth(self):
         return self.val
+
+    def growBy(self, k):
+        return self.val + k
+
+    def summary(self):
+        return (self.meth(), self.growBy(1), self.attr)
 
     @staticmethod
     def smeth():
@@ -57,11 +70,13 @@ def make():
 CONST = 7
 unusedVar = 8
 '''
+# the library references its own public names internally (self.growBy, self.meth, self.attr, <module>.otherThing):
+# with the library itself among the preserved files those names are in BOTH files' used-name sets
 
 USE = {     # how a client exercises a definition reached as expression `e`
     "helper": "print({e}())",
     "otherThing": "print({e}(3))",
-    "Klass": "k = {e}()\nprint(k.meth(), k.smeth(), k.noSelf(), k.attr, {e}.smeth())",
+    "Klass": "k = {e}()\nprint(k.meth(), k.smeth(), k.noSelf(), k.attr, {e}.smeth(), k.growBy(2), k.summary())",
     "CONST": "print({e} + 1)",
 }
 
@@ -86,7 +101,8 @@ def client_text(form: str, subset) -> str:
         return "from lib import *\n" + "".join(USE[n].format(e=n) + "\n" for n in names)
     if form == "object_attr":           # reaches members through an object only
         return "from lib import make\nobj = make()\n" + \
-            ("print(obj.meth(), obj.smeth(), obj.noSelf(), obj.attr)\n" if "Klass" in names else "") + \
+            ("print(obj.meth(), obj.smeth(), obj.noSelf(), obj.attr, obj.growBy(2), obj.summary())\n"
+             if "Klass" in names else "") + \
             "".join(USE[n].format(e="__import__('lib')." + n) + "\n" for n in names if n != "Klass")
     raise ValueError(form)
 
@@ -342,7 +358,7 @@ def check(run: common.Run):
             if out != LIB:
                 distinct.add(f"{rule}:{P}")
             rcases.append((k10.rule_case(rule, P, LIB, out, False), ("rule", rule, P, LIB, out, False)))
-    for src in k10.single_statements()[:: (2 if quick else 1)]:
+    for src in k10.single_statements()[:: (3 if quick else 1)]:
         for P in k10.preserve_sets(src, None, single=True, quick=quick):
             for rule in ("RUndefine", "RDeleteUnused", "RMoveStatic", "RDuplicate", "RAlign"):
                 try:
@@ -369,29 +385,39 @@ def check(run: common.Run):
     # ---- (d) deterministic sweep: every access form x every subset, single and 5-pass runs; the CLI path
     failures, suppressed = [], Counter()
     n_sweep = 0
-    for form, subset, c in pairs:
+    # two ways of passing the preserved files: the client only, or client AND library (`pyrefact lib.py
+    # --preserve .`) -- what the library references internally must not cost the client its protection.
+    # On a correct tree both give the library the same preserve set, so the quick tier alternates them
+    # (1-pass run in one mode, 5-pass run of odd-sized subsets in the other); thorough runs everything.
+    modes = (("client.py",), ("client.py", "lib.py"))
+    for i, (form, subset, c) in enumerate(pairs):
         for passes in (1, 5):
-            if quick and passes == 5 and (len(subset) % 2 == 0):
-                continue
-            n_sweep += 1
-            fail = cross_oracle(mods, tree, LIB, c, passes)
-            hist[f"sweep:{form}"] += 1
-            if fail:
-                fail["form"], fail["subset"] = form, list(subset)
-                failures.append(fail)
-    for form, subset, c in pairs[5:: (41 if quick else 9)]:      # the real multiprocessing pool and the CLI
-        n_sweep += 2
+            for mi, preserved in enumerate(modes):
+                if quick and (mi != (i + (passes == 5)) % 2 or (passes == 5 and len(subset) % 2 == 0)):
+                    continue
+                n_sweep += 1
+                fail = cross_oracle(mods, tree, LIB, c, passes, preserved=preserved)
+                hist[f"sweep:{form}"] += 1
+                hist[f"sweep:preserved={'+'.join(preserved)}"] += 1
+                if fail:
+                    fail["form"], fail["subset"], fail["preserved"] = form, list(subset), list(preserved)
+                    failures.append(fail)
+    for form, subset, c in pairs[5:: (61 if quick else 9)]:      # the real multiprocessing pool and the CLI
+        n_sweep += 1
         fail = cross_oracle(mods, tree, LIB, c, 5, real_pool=True)
         if fail:
             fail["path"] = "format_files with a real Pool"
             failures.append(fail)
-        fail = cli_oracle(tree, LIB, c)
-        if fail:
-            failures.append(fail)
+        for target in ("client.py", "."):
+            n_sweep += 1
+            fail = cli_oracle(tree, LIB, c, target)
+            if fail:
+                failures.append(fail)
     for c in load_corpus():
         if c.get("mode") == "cross":
             n_sweep += 1
-            fail = cross_oracle(mods, tree, c["lib"], c["client"], 5)
+            fail = cross_oracle(mods, tree, c["lib"], c["client"], 5,
+                                preserved=tuple(c.get("preserved", ["client.py"])))
             if fail:
                 fail["corpus"] = c["id"]
                 failures.append(fail)
@@ -499,16 +525,16 @@ def check(run: common.Run):
         "the theorems cover the seven modelled rules; the rest of the pipeline is observed by the sweep only"]
 
 
-def cli_oracle(tree: Path, lib_src: str, client_src: str):
+def cli_oracle(tree: Path, lib_src: str, client_src: str, target: str = "client.py"):
     (tree / "lib.py").write_text(lib_src)
     (tree / "client.py").write_text(client_src)
     env = dict(os.environ, PYTHONPATH=str(common.REPO), PYTHONHASHSEED="0")
-    r = subprocess.run([sys.executable, "-m", "pyrefact", "lib.py", "--preserve", "client.py", "--n_cores", "1"],
+    r = subprocess.run([sys.executable, "-m", "pyrefact", "lib.py", "--preserve", target, "--n_cores", "1"],
                        cwd=tree, env=env, capture_output=True, text=True, timeout=300)
     new_lib = (tree / "lib.py").read_text()
     before, after = run_client(lib_src, client_src), run_client(new_lib, client_src)
     if r.returncode != 0 or before != after:
-        return {"path": "CLI `python -m pyrefact lib.py --preserve client.py`", "lib": lib_src, "client": client_src,
+        return {"path": f"CLI `python -m pyrefact lib.py --preserve {target}`", "lib": lib_src, "client": client_src,
                 "new_lib": new_lib, "rc": r.returncode, "stderr": r.stderr[-800:], "client_before": before,
                 "client_after": after, "lost_top": [], "lost_members": []}
     return None
